@@ -78,6 +78,12 @@ def findEq : Word → Option Nat
   | [] => none
   | c :: cs => if c == '=' then some 0 else (findEq cs).map (· + 1)
 
+/-- `ResetAtExit< bool> rae( mRemainingArgumentStringAsValue, false)` on the way out of `operator++` -/
+def clearRem : Res It → Res It
+  | .ok it' => .ok { it' with remAsValue := false }
+  | .throw e => .throw e
+  | .oob w => .oob w
+
 mutual
 /-- `determineNextArg()`; `fuel` bounds the mutual recursion with `operator++` (depth ≤ 2 in fact) -/
 def It.determineNextArg (it : It) : (fuel : Nat) → Res It
@@ -123,10 +129,7 @@ def It.next (it : It) : (fuel : Nat) → Res It
           else if it.curLen == 1 then .throw .runtime_error   -- argument_error "single dash"
           else It.determineNextArg { it with charPos := 1 } fuel
         else It.determineNextArg it fuel
-    match r with
-    | .ok it' => .ok { it' with remAsValue := false }
-    | .throw e => .throw e
-    | .oob w => .oob w
+    clearRem r
 end
 
 /-- `ArgListParser::begin()` -/
